@@ -841,3 +841,402 @@ Proof.
     with ((ma ++ hmeta) ++ ("type", H5Str "vlen-utf-8" (kind_name k)) :: r2) by (rewrite <- app_assoc; reflexivity).
   apply Permutation_cons_app. rewrite <- app_assoc. apply Permutation_app_head. apply Permutation_app_comm.
 Qed.
+
+(* ---- graphs: the same statement at every depth ---------------------------------------------------- *)
+(* two trees with the same members: groups are compared as SETS of named members (HDF5 links are not
+   ordered), recursively; datasets must be identical *)
+Inductive h5_equiv : h5 -> h5 -> Prop :=
+| h5e_refl d : h5_equiv d d
+| h5e_group ms mid ref :
+    Permutation ms mid ->
+    Forall2 (fun a b => fst a = fst b /\ h5_equiv (snd a) (snd b)) mid ref ->
+    h5_equiv (H5Group ms) (H5Group ref).
+
+Definition members_equiv (ms ref : list (string * h5)) : Prop := h5_equiv (H5Group ms) (H5Group ref).
+
+Lemma members_refl (l : list (string * h5)) :
+  Forall2 (fun a b => fst a = fst b /\ h5_equiv (snd a) (snd b)) l l.
+Proof. induction l as [|a l IH]; constructor; [split; [reflexivity|apply h5e_refl]|exact IH]. Qed.
+
+Lemma members_equiv_perm ms ref : Permutation ms ref -> members_equiv ms ref.
+Proof. intros H. eapply h5e_group; [exact H|apply members_refl]. Qed.
+
+(* sanity of the relation: datasets are only equivalent to themselves; equivalent groups have the same
+   member names with the same multiplicity *)
+Lemma h5_equiv_dataset d d' : h5_equiv d d' -> (forall ms, d <> H5Group ms) -> d = d'.
+Proof. intros H Hd. destruct H as [d|ms mid ref _ _]; [reflexivity|]. exfalso. eapply Hd. reflexivity. Qed.
+
+Lemma h5_equiv_group_names ms t :
+  h5_equiv (H5Group ms) t -> exists ref, t = H5Group ref /\ Permutation (keys ms) (keys ref).
+Proof.
+  intros H. inversion H as [d|ms' mid ref Hp HF]; subst.
+  - exists ms. split; [reflexivity|apply Permutation_refl].
+  - exists ref. split; [reflexivity|].
+    apply Permutation_trans with (keys mid); [unfold keys; apply Permutation_map; exact Hp|].
+    clear -HF. unfold keys. induction HF as [|a b l l' [Hab _] _ IH]; [constructor|].
+    cbn [map]. rewrite Hab. constructor. exact IH.
+Qed.
+
+Fixpoint layout_ok (n : node) : Prop :=
+  match n with
+  | Leaf k fs _ _ => leaf_ok k fs
+  | Graph ch _ _ _ meta =>
+    plain meta /\
+    (fix all (l : list (string * node)) : Prop :=
+       match l with [] => True | p :: r => layout_ok (snd p) /\ all r end) ch
+  end.
+
+Lemma layout_ok_graph ch es gi go m :
+  layout_ok (Graph ch es gi go m) <-> plain m /\ Forall (fun p => layout_ok (snd p)) ch.
+Proof.
+  cbn [layout_ok].
+  assert (forall l : list (string * node),
+     (fix all (l : list (string * node)) : Prop :=
+        match l with [] => True | p :: r => layout_ok (snd p) /\ all r end) l
+     <-> Forall (fun p => layout_ok (snd p)) l) as Hall.
+  { induction l as [|p r IH].
+    - split; [constructor|trivial].
+    - split.
+      + intros [H1 H2]. constructor; [exact H1|apply IH; exact H2].
+      + intros H. inversion H as [|? ? H1 H2]. split; [exact H1|apply IH; exact H2]. }
+  rewrite Hall. reflexivity.
+Qed.
+
+Lemma to_dict_nonempty n : to_dict n <> [].
+Proof. intros H. pose proof (to_dict_type n) as Hin. rewrite H in Hin. destruct Hin. Qed.
+
+Definition children_dict (ch : list (string * node)) : list (string * pval) :=
+  map (fun p => (fst p, VDict (to_dict (snd p)))) ch.
+
+Lemma write_children (P : nat -> Prop) :
+  (forall f, P f -> forall n ms, write_rec f (to_dict n) = Ok ms -> layout_ok n ->
+             exists ref, encode_ref n = Ok ref /\ members_equiv ms ref) ->
+  (forall f, P (S f) -> P f) ->
+  forall ch f m, P f -> write_rec f (children_dict ch) = Ok m ->
+    Forall (fun p => layout_ok (snd p)) ch ->
+    exists ns, enc_children ch = Ok ns /\
+               Forall2 (fun a b => fst a = fst b /\ h5_equiv (snd a) (snd b)) m ns.
+Proof.
+  intros IH Hdown. induction ch as [|[name c] r IHr]; intros f m HP H Hok.
+  - apply write_rec_nil_inv in H. subst. exists []. split; [reflexivity|constructor].
+  - cbn [children_dict map fst snd] in H. fold (children_dict r) in H.
+    apply write_rec_cons_inv in H as (f' & here & rest & -> & _ & Hh & Hr & ->).
+    inversion Hok as [|? ? Hc Hrest]; subst. cbn [snd] in Hc.
+    apply wentry_dict in Hh as (mc & Hmc & ->); [|apply to_dict_nonempty].
+    destruct (IH f' (Hdown _ HP) c mc Hmc Hc) as (refc & Hrefc & Heq).
+    destruct (IHr f' rest (Hdown _ HP) Hr Hrest) as (ns & Hns & HF).
+    rewrite enc_children_cons, Hrefc. cbn [bind]. rewrite Hns. cbn [bind].
+    eexists. split; [reflexivity|]. cbn [app]. constructor; [|exact HF].
+    cbn [fst snd]. split; [reflexivity|exact Heq].
+Qed.
+
+Lemma plain_edges es : plain (edges_value es).
+Proof. exact I. Qed.
+
+(* (L3), all nodes: whatever write_rec makes of the dictionary form of a node has exactly the members
+   of the reference encoding, at every depth *)
+Theorem write_is_reference_layout : forall fuel n ms,
+  write_rec fuel (to_dict n) = Ok ms -> layout_ok n ->
+  exists ref, encode_ref n = Ok ref /\ members_equiv ms ref.
+Proof.
+  induction fuel as [fuel IH] using lt_wf_ind. intros n ms H Hok.
+  destruct n as [k fs tin tout|ch es gi go meta].
+  - destruct (write_is_reference_layout_leaf fuel k fs tin tout ms Hok H) as (ref & Href & Hp).
+    exists ref. split; [exact Href|apply members_equiv_perm; exact Hp].
+  - apply layout_ok_graph in Hok as [Hmeta Hch].
+    cbn [to_dict] in H. fold (children_dict ch) in H. fold (edges_value es) in H.
+    apply write_rec_cons_inv in H as (f1 & h1 & r1 & -> & _ & Hh1 & Hr1 & ->).
+    apply write_rec_cons_inv in Hr1 as (f2 & h2 & r2 & -> & _ & Hh2 & Hr2 & ->).
+    apply write_rec_cons_inv in Hr2 as (f3 & h3 & r3 & -> & _ & Hh3 & Hr3 & ->).
+    apply write_rec_cons_inv in Hr3 as (f4 & h4 & r4 & -> & _ & Hh4 & Hr4 & ->).
+    apply write_rec_nil_inv in Hr4. subst r4.
+    (* nodes *)
+    assert (Hnodes : exists mn ns, h1 = [("nodes", H5Group mn)] /\ enc_children ch = Ok ns /\
+                       Forall2 (fun a b => fst a = fst b /\ h5_equiv (snd a) (snd b)) mn ns).
+    { unfold wentry in Hh1. change (String.eqb "nodes" "metadata") with false in Hh1.
+      change (unusable_name "nodes") with false in Hh1. cbv iota in Hh1.
+      apply bind_ok in Hh1 as (mn & Hmn & Hh1). inversion Hh1.
+      destruct (write_children (fun f => f < S (S (S (S f4))))%nat) with (ch := ch) (f := S (S (S f4))) (m := mn)
+        as (ns & Hns & HF).
+      - intros f Hf n0 ms0 Hw Hl. apply (IH f Hf n0 ms0 Hw Hl).
+      - intros f Hf. lia.
+      - lia.
+      - exact Hmn.
+      - exact Hch.
+      - exists mn, ns. repeat split; assumption. }
+    destruct Hnodes as (mn & ns & -> & Hns & HF).
+    apply wentry_plain in Hh2 as (ye & Hye & ->); [|discriminate|apply plain_edges].
+    apply wentry_meta in Hh3; [|exact Hmeta].
+    apply wentry_plain in Hh4 as (yt & Hyt & ->); [|discriminate|exact I].
+    cbn [enc_value] in Hyt. inversion Hyt; subst yt. clear Hyt.
+    rewrite encode_ref_graph, Hns. cbn [bind]. rewrite Hye. cbn [bind]. rewrite Hh3. cbn [bind].
+    eexists. split; [reflexivity|].
+    apply h5e_group with (mid := [("type", H5Str "vlen-utf-8" "NIRGraph"); ("nodes", H5Group mn); ("edges", ye)] ++ h3).
+    + cbn [app]. apply Permutation_sym.
+      replace (("nodes", H5Group mn) :: ("edges", ye) :: h3 ++ [("type", H5Str "vlen-utf-8" "NIRGraph")])
+        with ((("nodes", H5Group mn) :: ("edges", ye) :: h3) ++ [("type", H5Str "vlen-utf-8" "NIRGraph")])
+        by reflexivity.
+      apply Permutation_cons_append.
+    + cbn [app]. constructor; [split; [reflexivity|apply h5e_refl]|].
+      constructor; [split; [reflexivity|]|].
+      * cbn [snd]. eapply h5e_group; [apply Permutation_refl|exact HF].
+      * constructor; [split; [reflexivity|apply h5e_refl]|apply members_refl].
+Qed.
+
+(* the whole file *)
+Theorem write_is_reference_file : forall g t,
+  write g = Ok t -> layout_ok g -> exists r, encode_file g = Ok r /\ h5_equiv t r.
+Proof.
+  intros g t H Hok. unfold write in H. apply bind_ok in H as (ms & Hms & Ht). inversion Ht; subst t.
+  destruct (write_is_reference_layout _ _ _ Hms Hok) as (ref & Href & Heq).
+  unfold encode_file. rewrite Href. cbn [bind]. eexists. split; [reflexivity|].
+  eapply h5e_group; [apply Permutation_refl|].
+  constructor; [split; [reflexivity|apply h5e_refl]|].
+  constructor; [split; [reflexivity|exact Heq]|constructor].
+Qed.
+
+(* why `plain` is needed: a dictionary-valued field with a nested empty "metadata" entry.  The
+   implementation drops the nested entry, the documented rule (a dictionary is a group of its entries)
+   keeps it as an empty group. *)
+Definition plain_cex : node :=
+  Leaf KScale [("scale", VDict [("metadata", VDict [])]); ("metadata", VDict [])] None None.
+
+Example plain_needed :
+  write_rec 10 (to_dict plain_cex) = Ok [("scale", H5Group []); ("type", H5Str "vlen-utf-8" "Scale")] /\
+  encode_ref plain_cex = Ok [("type", H5Str "vlen-utf-8" "Scale"); ("scale", H5Group [("metadata", H5Group [])])].
+Proof. split; vm_compute; reflexivity. Qed.
+
+(* the side conditions about names ("no bad characters") are consequences of success, not assumptions *)
+Lemma write_rec_names_ok fuel : forall kv ms k v,
+  write_rec fuel kv = Ok ms -> In (k, v) kv ->
+  has_bad_char k = false /\ (k <> "metadata" -> unusable_name k = false).
+Proof.
+  induction fuel as [|f IH]; intros kv ms k v H Hin; [discriminate|].
+  destruct kv as [|[k0 v0] r]; [destruct Hin|].
+  apply write_rec_cons_inv in H as (f' & here & rest & Hf & Hbad & Hh & Hr & _). inversion Hf; subst f'.
+  destruct Hin as [E|Hin].
+  - inversion E; subst. split; [exact Hbad|]. intros Hk. unfold wentry in Hh.
+    destruct (String.eqb k "metadata") eqn:E1; [apply String.eqb_eq in E1; contradiction|].
+    destruct (unusable_name k); [discriminate|reflexivity].
+  - apply (IH _ _ _ _ Hr Hin).
+Qed.
+
+(* ---- the key condition of `leaf_ok` holds for EVERY node the constructors build --------------------- *)
+Lemma keys_assoc_del {A} k (l : list (string * A)) :
+  keys (assoc_del k l) = filter (fun f => negb (String.eqb k f)) (keys l).
+Proof.
+  unfold keys. induction l as [|[k0 v0] r IH]; [reflexivity|].
+  cbn [assoc_del map fst filter]. destruct (String.eqb k k0); cbn [negb map fst]; rewrite IH; reflexivity.
+Qed.
+
+Definition is_type_key (f : string) : bool := String.eqb "input_type" f || String.eqb "output_type" f.
+
+Lemma keys_drop_types fs : keys (drop_types fs) = filter (fun f => negb (is_type_key f)) (keys fs).
+Proof.
+  unfold drop_types. rewrite !keys_assoc_del. induction (keys fs) as [|a l IH]; [reflexivity|].
+  unfold is_type_key in *. cbn [filter].
+  destruct (String.eqb "input_type" a); cbn [negb orb filter]; [exact IH|].
+  destruct (String.eqb "output_type" a); cbn [negb]; [exact IH|]. rewrite IH. reflexivity.
+Qed.
+
+Lemma keys_assoc_set_present {A} k (v : A) l : assoc k l <> None -> keys (assoc_set k v l) = keys l.
+Proof.
+  unfold keys. induction l as [|[k0 v0] r IH]; cbn [assoc assoc_set]; [congruence|].
+  destruct (String.eqb k k0) eqn:E.
+  - intros _. apply String.eqb_eq in E. subst. reflexivity.
+  - intros H. cbn [map fst]. rewrite IH by exact H. reflexivity.
+Qed.
+
+Lemma assoc_del_other {A} f k (l : list (string * A)) : f <> k -> assoc f (assoc_del k l) = assoc f l.
+Proof.
+  intros Hne. induction l as [|[k0 v0] r IH]; [reflexivity|]. cbn [assoc_del assoc].
+  destruct (String.eqb k k0) eqn:E.
+  - apply String.eqb_eq in E. subst k0.
+    destruct (String.eqb f k) eqn:E2; [apply String.eqb_eq in E2; contradiction|exact IH].
+  - cbn [assoc]. rewrite IH. reflexivity.
+Qed.
+
+Lemma fld_present f fs v : fld f fs = Ok v -> assoc f fs <> None.
+Proof. intros H. rewrite (fld_ok_assoc _ _ _ H). discriminate. Qed.
+
+Lemma elementwise_fields k fs names k' f ti to :
+  elementwise k fs names = Ok (Leaf k' f ti to) -> f = drop_types fs.
+Proof. unfold elementwise. intros H. ok_walk H. reflexivity. Qed.
+
+Lemma matvec_fields k fs k' f ti to : matvec k fs = Ok (Leaf k' f ti to) -> f = drop_types fs.
+Proof. unfold matvec. intros H. ok_walk H. reflexivity. Qed.
+
+Lemma post_init_keys k fs k' f ti to :
+  post_init k fs = Ok (Leaf k' f ti to) -> keys f = keys (drop_types fs).
+Proof.
+  intros H. destruct k; unfold post_init in H; cbv beta iota zeta in H;
+    try (apply elementwise_fields in H; subst; reflexivity);
+    try (apply matvec_fields in H; subst; reflexivity);
+    try (ok_walk H; reflexivity).
+  - (* Conv2d: three hyper-parameters are rewritten in place *)
+    destruct (fld "padding" fs) as [pad|] eqn:Hp; cbn [bind] in H; [|discriminate].
+    destruct (pad_is_bad_string pad); [discriminate|].
+    destruct (fld "stride" fs) as [stride|] eqn:Hs; cbn [bind] in H; [|discriminate].
+    destruct (fld "dilation" fs) as [dil|] eqn:Hd; cbn [bind] in H; [|discriminate].
+    assert (Hk : keys (drop_types (assoc_set "dilation" (pair_if_int dil)
+                   (assoc_set "stride" (pair_if_int stride) (assoc_set "padding" (pair_if_int pad) fs))))
+                 = keys (drop_types fs)).
+    { rewrite !keys_drop_types. f_equal.
+      rewrite keys_assoc_set_present.
+      2: { rewrite !assoc_set_other by discriminate. eapply fld_present. exact Hd. }
+      rewrite keys_assoc_set_present.
+      2: { rewrite !assoc_set_other by discriminate. eapply fld_present. exact Hs. }
+      apply keys_assoc_set_present. eapply fld_present. exact Hp. }
+    ok_walk H; exact Hk.
+  - (* CubaLIF: w_in is replaced in place *)
+    ok_walk H.
+    match goal with E : elementwise _ _ _ = Ok _ |- _ => apply elementwise_fields in E; subst end.
+    apply keys_assoc_set_present. unfold drop_types. rewrite !assoc_del_other by discriminate.
+    eapply fld_present. eassumption.
+Qed.
+
+Lemma bind_fields_keys tbl : forall args b, bind_fields tbl args = Ok b -> keys b = keys tbl.
+Proof.
+  unfold keys. induction tbl as [|[f0 d0] tbl IH]; intros args b H; cbn [bind_fields] in H.
+  - inversion H. reflexivity.
+  - apply bind_ok in H as (v & _ & H). apply bind_ok in H as (rest & Hr & H). inversion H.
+    cbn [map fst]. rewrite (IH _ _ Hr). reflexivity.
+Qed.
+
+Lemma class_keys_params k : k <> KGraph ->
+  filter (fun f => negb (is_type_key f)) (class_keys k) = doc_params k ++ ["metadata"].
+Proof. intros Hk. destruct k; try (vm_compute; reflexivity). congruence. Qed.
+
+Theorem constructed_leaf_keys : forall k args k' fs tin tout,
+  construct k args = Ok (Leaf k' fs tin tout) -> keys fs = doc_params k ++ ["metadata"].
+Proof.
+  intros k args k' fs tin tout H. unfold construct in H. apply bind_ok in H as (b & Hb & H).
+  assert (Hk : k <> KGraph) by (intros ->; discriminate H).
+  rewrite (post_init_keys _ _ _ _ _ _ H), keys_drop_types, <- (class_keys_params k Hk). f_equal.
+  unfold bind_args in Hb. unfold class_keys. destruct (class_fields k) as [tbl|]; [|discriminate].
+  destruct (forallb _ args); [|discriminate]. apply (bind_fields_keys _ _ _ Hb).
+Qed.
+
+(* hence: a constructed node whose parameter values are plain is written in the reference layout *)
+Corollary constructed_leaf_layout : forall k args k' fs tin tout fuel ms,
+  construct k args = Ok (Leaf k' fs tin tout) ->
+  Forall (fun p => plain (snd p)) fs ->
+  write_rec fuel (to_dict (Leaf k' fs tin tout)) = Ok ms ->
+  exists ref, encode_ref (Leaf k' fs tin tout) = Ok ref /\ Permutation ms ref.
+Proof.
+  intros k args k' fs tin tout fuel ms H Hp Hw.
+  assert (k' = k).
+  { pose proof (construct_kind _ _ _ H) as Hk. cbn [node_kind] in Hk. exact Hk. }
+  subst k'. apply (write_is_reference_layout_leaf fuel k fs tin tout ms); [|exact Hw].
+  split; [eapply constructed_leaf_keys; exact H|exact Hp].
+Qed.
+
+(* ---- the theorems are not vacuous: a concrete file -------------------------------------------------- *)
+Definition ex_graph : node :=
+  mk_graph
+    [("input", Leaf KInput [("metadata", VDict [])] (arr_ty "input" [2]) (arr_ty "output" [2]));
+     ("scale", Leaf KScale [("scale", VArr "float32" [2] 7 None); ("metadata", VDict [("note", VStr "x")])]
+                    (arr_ty "input" [2]) (arr_ty "output" [2]));
+     ("output", Leaf KOutput [("metadata", VDict [])] (arr_ty "input" [2]) (arr_ty "output" [2]))]
+    [("input", "scale"); ("scale", "output")] (VDict []).
+
+Lemma ex_graph_layout_ok : layout_ok ex_graph.
+Proof.
+  unfold ex_graph, mk_graph. apply layout_ok_graph. split; [exact I|].
+  repeat constructor; try discriminate.
+Qed.
+
+Example ex_graph_file :
+  write ex_graph =
+  Ok (H5Group
+        [("version", H5Str "vlen-utf-8" nir_version);
+         ("node", H5Group
+            [("nodes", H5Group
+                [("input", H5Group [("type", H5Str "vlen-utf-8" "Input");
+                                    ("shape", H5Data (VArr "?" [1] (-1) (Some [2])))]);
+                 ("scale", H5Group [("scale", H5Data (VArr "float32" [2] 7 None));
+                                    ("metadata", H5Group [("note", H5Str "vlen-utf-8" "x")]);
+                                    ("type", H5Str "vlen-utf-8" "Scale")]);
+                 ("output", H5Group [("type", H5Str "vlen-utf-8" "Output");
+                                     ("shape", H5Data (VArr "?" [1] (-1) (Some [2])))])]);
+             ("edges", H5Strs "vlen-utf-8" [["input"; "scale"]; ["scale"; "output"]]);
+             ("type", H5Str "vlen-utf-8" "NIRGraph")])]) /\
+  encode_file ex_graph =
+  Ok (H5Group
+        [("version", H5Str "vlen-utf-8" nir_version);
+         ("node", H5Group
+            [("type", H5Str "vlen-utf-8" "NIRGraph");
+             ("nodes", H5Group
+                [("input", H5Group [("type", H5Str "vlen-utf-8" "Input");
+                                    ("shape", H5Data (VArr "?" [1] (-1) (Some [2])))]);
+                 ("scale", H5Group [("type", H5Str "vlen-utf-8" "Scale");
+                                    ("scale", H5Data (VArr "float32" [2] 7 None));
+                                    ("metadata", H5Group [("note", H5Str "vlen-utf-8" "x")])]);
+                 ("output", H5Group [("type", H5Str "vlen-utf-8" "Output");
+                                     ("shape", H5Data (VArr "?" [1] (-1) (Some [2])))])]);
+             ("edges", H5Strs "vlen-utf-8" [["input"; "scale"]; ["scale"; "output"]])])]).
+Proof. split; vm_compute; reflexivity. Qed.
+
+(* ---- GROUP S, closing the loop: the annotation as it comes back from a FILE -------------------------- *)
+(* Conv1d: the stored input_shape is a numpy integer scalar, which the file returns unchanged
+   (stored_annotation_survives_file), so conv1d_regain_post applies verbatim to the fields read back.
+   Conv2d: the stored pair comes back as a 1-d int64 array; construction accepts that form too. *)
+Lemma conv_out_axes_arr_input l p d k s cnt : forall i,
+  conv_out_axes (HArr l) p d k s i cnt = conv_out_axes (HSeq l) p d k s i cnt.
+Proof.
+  induction cnt as [|cnt IH]; intros i; [reflexivity|].
+  cbn [conv_out_axes index_tuple]. rewrite IH. reflexivity.
+Qed.
+
+Lemma conv_out_arr_input l p d k s : conv_out (HArr l) p d k s = conv_out (HSeq l) p d k s.
+Proof. unfold conv_out. cbn [hp_ndim bind]. apply conv_out_axes_arr_input. Qed.
+
+Lemma conv2d_post_gen fs2 ish c n1 n2 co k1 k2 pad dil stride out :
+  fld "padding" fs2 = Ok pad -> fld "input_shape" fs2 = Ok ish ->
+  ish <> VNone -> seq_view ish = Some [n1; n2] ->
+  (hp_of ish = HSeq [n1; n2] \/ hp_of ish = HArr [n1; n2]) ->
+  fld_shape "weight" fs2 = Ok [co; c; k1; k2] -> fld "stride" fs2 = Ok stride -> fld "dilation" fs2 = Ok dil ->
+  conv_out (HSeq [n1; n2]) (hp_of pad) (hp_of dil) (HSeq [k1; k2]) (hp_of stride) = Ok out ->
+  exists fs3,
+  post_init KConv2d fs2 =
+  Ok (Leaf KConv2d fs3 (arr_ty "input" [c; n1; n2]) (arr_ty "output" (co :: out))).
+Proof.
+  intros Hp Hi Hnn Hseq Hhp Hw Hs Hd Ho. unfold post_init. rewrite Hp. cbn [bind].
+  rewrite (conv_out_ok_pad (HSeq [n1; n2]) pad _ _ _ out 2 1 eq_refl eq_refl Ho).
+  rewrite Hs, Hd. cbn [bind]. rewrite Hi. cbn [bind].
+  destruct ish; try congruence;
+    rewrite Hw; cbn [bind]; rewrite py_index_1; cbn [bind]; rewrite Hseq; rewrite py_index_0; cbn [bind skipn];
+    destruct Hhp as [-> | ->]; rewrite ?conv_out_arr_input, conv_out_pair_if_int, Ho; cbn [bind];
+    eexists; reflexivity.
+Qed.
+
+Theorem conv2d_regain_file : forall fs pre c n1 n2 co k1 k2 fs' tout fs2 v',
+  derive_output KConv2d fs pre [("input", TArr [c; n1; n2])] = (fs', Some tout, None) ->
+  fld_shape "weight" fs = Ok [co; c; k1; k2] ->
+  norm_val (VTuple [np_int n1; np_int n2]) = Ok v' ->            (* the stored pair, after write + read *)
+  fld "input_shape" fs2 = Ok v' ->
+  agree_on ["weight"; "stride"; "padding"; "dilation"] fs' fs2 ->
+  exists fs3,
+    post_init KConv2d fs2 = Ok (Leaf KConv2d fs3 (Some [("input", TArr [c; n1; n2])]) (Some tout)).
+Proof.
+  intros fs pre c n1 n2 co k1 k2 fs' tout fs2 v' H Hw Hn Hi Hag.
+  destruct (derive_conv2d_inv _ _ _ _ _ _ _ _ _ _ H Hw)
+    as (pad & dil & stride & out & -> & Hp & Hd & Hs & Ho & ->).
+  assert (Hv : v' = VArr "int64" [2] (-1) (Some [n1; n2])).
+  { cbn [norm_val np_asarray] in Hn.
+    change (ints_view [np_int n1; np_int n2]) with (Some [n1; n2]) in Hn.
+    cbv beta iota in Hn.
+    destruct (forallb int64_ok [n1; n2]); cbn [bind] in Hn; [|discriminate]. inversion Hn. reflexivity. }
+  subst v'.
+  apply (conv2d_post_gen fs2 (VArr "int64" [2] (-1) (Some [n1; n2])) c n1 n2 co k1 k2 pad dil stride out).
+  - rewrite (agree_fld _ _ _ _ Hag) by (cbn; timeout 20 tauto). rewrite fld_set_other by discriminate. exact Hp.
+  - exact Hi.
+  - discriminate.
+  - reflexivity.
+  - right. reflexivity.
+  - rewrite (agree_fld_shape _ _ _ _ Hag) by (cbn; timeout 20 tauto).
+    rewrite fld_shape_set_other by discriminate. exact Hw.
+  - rewrite (agree_fld _ _ _ _ Hag) by (cbn; timeout 20 tauto). rewrite fld_set_other by discriminate. exact Hs.
+  - rewrite (agree_fld _ _ _ _ Hag) by (cbn; timeout 20 tauto). rewrite fld_set_other by discriminate. exact Hd.
+  - exact Ho.
+Qed.
